@@ -92,6 +92,13 @@ def check(inp):
         if m and np.isfinite(C[np.ix_(pi, pi)]).all() and np.linalg.cond(C[np.ix_(pi, pi)]) < 1e8:
             if not np.allclose(d.ivar.value @ C[np.ix_(pi, pi)], np.eye(m), atol=1e-6):
                 bad("ivar", "inverse-covariance")
+            # the same covariance at the m/s level expressed in (km/s)**2 (entries ~1e-10): still the inverse of the matrix, whatever its scale
+            try:
+                ds = RVData(tin, rv * u.km / u.s, errq * 1e-10, t_ref=tref, clean=inp["clean"])
+                if not np.allclose(ds.ivar.value @ (1e-10 * C[np.ix_(pi, pi)]), np.eye(m), atol=1e-6):
+                    bad("ivar", "inverse-covariance[small-scale]")
+            except Exception as e:  # noqa: BLE001
+                bad("ivar", "inverse-covariance[small-scale]", exc=repr(e)[:200])
     else:
         if not np.array_equal(d.rv_err.to_value(u.km / u.s), err[pi]):
             bad("__init__", "uncertainty-paired-with-its-time", got=d.rv_err.value, want=err[pi])
